@@ -128,6 +128,9 @@ pub fn prop(tier: Tier, seed: u64) -> Prop {
         decode(idx, &d1, &mut d);
         let ((n_in, n_out), f, adaptive) = (pr[d[0]], FILT[d[1]], d[2] == 0);
         ctx.sample(|| json!({"n_in": n_in, "n_out": n_out, "filter": format!("{:?}", f), "adaptive": adaptive, "crops": "CROP1(n_in)"}));
+        if ctx.describe_only {
+            return;
+        }
         for crop in model_crops(n_in) {
             if axis_is_identity(crop, n_out) {
                 continue;
@@ -154,7 +157,7 @@ pub fn prop(tier: Tier, seed: u64) -> Prop {
             ctx.class(mix(mix(d[1] as u64, d[2] as u64), mix(dump.precision16 as u64, (dump.window_size % 16) as u64)));
             ctx.outcome(mix(dump.precision16 as u64, dump.chunks16.first().map(|c| c.1.iter().map(|k| *k as u64).sum::<u64>()).unwrap_or(0)));
         }
-    }));
+    }).isolated());
 
     // ---- (b) direct 1-D: every 8-bit value, boundary values of the wider types
     let n: u32 = tier.pick(10, 32);
@@ -178,6 +181,9 @@ pub fn prop(tier: Tier, seed: u64) -> Prop {
         }
         let (crop, alg) = (crops[d[1]], a2[d[2]]);
         ctx.sample(|| json!({"n_in": n_in, "n_out": n_out, "crop": [crop.start, crop.len], "alg": format!("{:?}", alg), "values": "all 256 (8-bit); boundary + lcg (16-bit, i32, f32)"}));
+        if ctx.describe_only {
+            return;
+        }
         // a window with zero total weight has no defined value
         let f = alg.filter().unwrap();
         if !axis_is_identity(crop, n_out) {
@@ -246,7 +252,7 @@ pub fn prop(tier: Tier, seed: u64) -> Prop {
             }
         }
         ctx.nontrivial += 1;
-    }));
+    }).isolated());
 
     // ---- (c) direct 2-D incl. SuperSampling
     let shapes: Vec<(u32, u32, u32, u32)> = vec![(8, 8, 4, 4), (9, 7, 2, 3), (16, 5, 3, 2), (5, 16, 2, 3), (20, 20, 3, 3), (3, 3, 7, 5), (7, 13, 2, 2), (33, 9, 7, 5), (2, 2, 2, 3), (40, 40, 1, 1)];
@@ -266,6 +272,9 @@ pub fn prop(tier: Tier, seed: u64) -> Prop {
             return;
         }
         ctx.sample(|| json!({"src": [sw, sh], "dst": [dw, dh], "alg": format!("{:?}", alg), "crop": [cx.start, cy.start, cx.len, cy.len]}));
+        if ctx.describe_only {
+            return;
+        }
         for pt in ALL_PT {
             let ck = pt.ck();
             let vals: Vec<f64> = match ck {
@@ -302,7 +311,7 @@ pub fn prop(tier: Tier, seed: u64) -> Prop {
             ctx.class(mix(pt.idx() as u64 + 700, mix(d[0] as u64, d[1] as u64)));
         }
         ctx.nontrivial += 1;
-    }));
+    }).isolated());
 
     p.rule = "(a) model: for every geometry (sizes 1..S plus {255..65537}, CROP1, 7 filters, adaptive on/off) the integer tables of both real normalisers are read through the hook and Σk is checked exactly against 2^p so that every constant value is reproduced (decides all 256 / 65536 values); (b) direct 1-D: every (n_in,n_out) up to N and extreme ratios x crops x 14 algorithms x 13 types x back-ends x 2 orientations on images whose line r carries value r (all 256 values for 8-bit, boundary + lcg values for wider types), alpha off and alpha = max with alpha handling on; (c) 2-D shapes incl. SuperSampling m=1,2,3".into();
     p.bounds = json!({"model_pairs": pairs.len(), "model_square": tier.pick(30, 160), "model_big": BIG, "model_big_other_side_up_to": tier.pick(4, 24), "N": n});
